@@ -184,6 +184,9 @@ def judgeC02 (arg impl : String) (same : Bool := true) : String :=
     -- a drum routine whose first note is inside a `[]` loop: refused by the converter (repo fix b6d6699),
     -- outside the encodable domain
     if !(chans.all fun (_, root) => Fragment.routineNotesOutsideLoops r.song root) then "skip" else
+    -- time in front of a routine's note (a rest or tie in the routine or in a subroutine it calls): not
+    -- described by `Timeline.ticksOf`, outside the oracle's domain (model and implementation are still compared)
+    if !(chans.all fun (_, root) => Fragment.routineHeadsTimeless r.song root) then "skip" else
     -- expected tick strings
     let exps := chans.map fun (id, root) => (id, Timeline.expected r.song r.platformSpec root)
     if exps.any (fun (_, e) => match e with | .error _ => true | .ok _ => false) then
